@@ -393,6 +393,19 @@ func (f *LedgerFs) Stat(name string) (os.FileInfo, error) {
 	}
 	return f.Fs.Stat(name)
 }
+// LstatIfPossible passes the optional interface of the wrapped filesystem through (a decorator that hides it would
+// change what the code under test can know about links); counted and faultable like Stat.
+func (f *LedgerFs) LstatIfPossible(name string) (os.FileInfo, bool, error) {
+	if err := f.L.op("lstat", name); err != nil {
+		return nil, false, &os.PathError{Op: "lstat", Path: name, Err: err}
+	}
+	if l, ok := f.Fs.(afero.Lstater); ok {
+		return l.LstatIfPossible(name)
+	}
+	fi, err := f.Fs.Stat(name)
+	return fi, false, err
+}
+
 func (f *LedgerFs) Remove(name string) error {
 	if err := f.L.op("remove", name); err != nil {
 		return &os.PathError{Op: "remove", Path: name, Err: err}
